@@ -15,6 +15,7 @@ from .. import common, gen_odd, gen_prog, mutate
 PID = 'C19'
 
 
+ZLA = re.compile(rb'[\w\]]\s*\[\s*0\s*\]\s*(=|;|\[|\)\))')
 HUGE_ARRAY = re.compile(rb'\[\s*(0[xX][0-9a-fA-F]{7,}|\d{8,})[uUlL]*\s*\]')
 
 
@@ -145,7 +146,7 @@ def run(tier):
         seeds.append(open(p, 'rb').read())
     for i in range(12):
         seeds.append(gen_prog.generate(random.Random(rng.getrandbits(48)), nfuncs=3, stmts=6).encode())
-    nmut, nodd, ntrunc = (40000, 8000, 6000) if tier == 'quick' else (1500000, 300000, 200000)
+    nmut, nodd, ntrunc = (24000, 6000, 4000) if tier == 'quick' else (1500000, 300000, 200000)
     inputs = []
     for i in range(nmut):
         s = rng.choice(seeds)
@@ -247,6 +248,10 @@ def run(tier):
         summ, data, name = min(lst, key=lambda x: len(x[1] or b''))
         if small is not None:
             data = small
+            if ZLA.search(data):
+                # reduced witness declares a zero-length array (accepted as an extension; its size 0 is
+                # confused with 'variable length' in several places: recorded finding K06)
+                key += ':zero-length-array'
         ck.violation(key, '%s (%d inputs; smallest %d bytes, from %s)' % (summ, len(lst), len(data or b''), name), {'input.c': data or b''}, {'count': len(lst)}, text=summ)
     # distinct non-trivial: inputs that reached a distinct outcome class + sizes
     for i, (n, d, m) in enumerate(inputs[:5000]):
